@@ -7,7 +7,7 @@ MODEL = "c10"
 COQ_PROPS = ["Properties_C10.v"]
 COQ_EXTRACT = "Extract_C10.v"
 LEVEL = "proof"
-RULE = ("cases = pairs (A,B) of NFAs over letters {0,1} (a few families use 3 letters or a one-sided extra letter), each built "
+RULE = ("cases = pairs (A,B) of NFAs over letters {0,1} (a few families use 3 letters or a one-sided extra letter; one family gives both operands ONE edge list and the driver builds them as two copies of one automaton sharing the copy-on-write table), each built "
         "either through the Timbuk loader or through the facade setters; every case runs Union (with maps), "
         "UnionDisjointStates, Intersection (with product map), A.Reverse, A.RemoveUnreachableStates, A.RemoveUselessStates, "
         "A.GetCandidateTree, DumpToString of every result; streams: corpus (triggers of D7, D8, D13 and boundary cases), the complete "
@@ -71,6 +71,19 @@ def cases(rng, tier):
             cs.append((line(rng, a, b), "exhaustive_binary"))
     for fam, a, b in gen_nfa.targeted_pairs(rng, 150 if tier == "quick" else 1500):
         cs.append((line(rng, a, b), fam))
+    for _ in range(1200 if tier == "quick" else 15000):
+        # both operands over ONE edge list (the driver builds them as two copies of one automaton: shared copy-on-write table) with their own
+        # start and final states — nondeterministic bases, so that a word is accepted by the two copies along different runs
+        base = gen.rand_nfa_sized(rng, 4, 9, rng.choice([1, 2, 2]))
+        if not base.edges: continue
+        st = sorted(base.states())
+        a = base.copy(); b = base.copy()
+        r = rng.random()
+        if r < 0.4: a.finals = [q for q in st if rng.random() < 0.4] or [rng.choice(st)]; b.finals = [q for q in st if rng.random() < 0.4] or [rng.choice(st)]
+        elif r < 0.7: a.starts = [rng.choice(st)]; b.starts = [rng.choice(st)]
+        elif r < 0.85: b.starts = b.starts + [rng.choice(st)]; b.finals = b.finals + [rng.choice(st)]
+        else: a.starts = [q for q in st if rng.random() < 0.4] or [rng.choice(st)]; b.finals = [q for q in st if rng.random() < 0.5]
+        cs.append(("ops F %s %s" % (a.fmt(), b.fmt()), "shared_table"))
     n = 5000 if tier == "quick" else 60000
     for _ in range(n):
         ns = rng.choice([2, 2, 3])
